@@ -50,7 +50,11 @@ func (o *Offset) saveToTmp() error {
 		_ = file.Close()
 	}(file)
 	defer verifhook.Point("offset.generic.afterWrite")
-	return o.Callback.Save(file)
+	if err := o.Callback.Save(file); err != nil {
+		return err
+	}
+	// make the new snapshot durable before it replaces the previous one
+	return file.Sync()
 }
 
 func (o *Offset) Save() error {
